@@ -41,3 +41,5 @@ Definition hbranches_all : list N :=
 Definition mismatches (l : list hcase) : list N := mism hcheck l.
 Definition coverage (l : list hcase) : list N :=
   fold_left (fun acc c => fold_left (fun a x => ins x a) (hids c) acc) l [].
+
+Definition hexplain (c : hcase) : dobs * N := match c with HCase b _ _ => (model_decode b, steps b) end.
